@@ -281,6 +281,22 @@ func (dc *delimCtx) blocks(end int64) {
 		return
 	}
 	ci := dc.closerInfo(end)
+	// roots: functions dispatched from parseStatement and the operator handlers
+	roots := map[*ssa.Function]bool{}
+	if ps := m.Method("parser", "Parser", "parseStatement"); ps != nil {
+		for _, b := range ps.Blocks {
+			for _, in := range b.Instrs {
+				if call, ok := in.(*ssa.Call); ok && call.Call.StaticCallee() != nil {
+					roots[call.Call.StaticCallee()] = true
+				}
+			}
+		}
+	}
+	for _, tab := range []map[string]*handler{dc.pm.prefix, dc.pm.infix} {
+		for _, h := range tab {
+			roots[h.fn] = true
+		}
+	}
 	// openers per function: calls to parseBlockStmt or to a sub-block parser
 	sub := map[*ssa.Function]bool{}
 	type opener struct {
@@ -304,22 +320,6 @@ func (dc *delimCtx) blocks(end int64) {
 			}
 		}
 		return out
-	}
-	// roots: functions dispatched from parseStatement and the operator handlers
-	roots := map[*ssa.Function]bool{}
-	if ps := m.Method("parser", "Parser", "parseStatement"); ps != nil {
-		for _, b := range ps.Blocks {
-			for _, in := range b.Instrs {
-				if call, ok := in.(*ssa.Call); ok && call.Call.StaticCallee() != nil {
-					roots[call.Call.StaticCallee()] = true
-				}
-			}
-		}
-	}
-	for _, tab := range []map[string]*handler{dc.pm.prefix, dc.pm.infix} {
-		for _, h := range tab {
-			roots[h.fn] = true
-		}
 	}
 	for changed := true; changed; {
 		changed = false
